@@ -217,6 +217,44 @@ def generate():
                 or kw.get("backtrace") != "backtrace":
             raise Unsupported("ExceptionFormatter construction keywords: %r" % kw)
 
+        # ---- Logger.catch: which `from_decorator` flag each use of a catch object reports
+        cfn = find_func(ltree, "catch", "Logger")
+        ccls = [n for n in ast.walk(cfn) if isinstance(n, ast.ClassDef) and n.name == "Catcher"]
+        if len(ccls) != 1:
+            raise Unsupported("Logger.catch: class Catcher not found")
+        stores = [n for n in ast.walk(cfn) if isinstance(n, ast.Attribute) and n.attr == "_from_decorator"
+                  and isinstance(n.ctx, ast.Store)]
+        cinit = find_func(ccls[0], "__init__")
+        if len(stores) != 1 or "self._from_decorator = from_decorator" not in [_src(x) for x in cinit.body]:
+            raise Unsupported("Catcher._from_decorator is assigned outside Catcher.__init__ (the flag must be fixed per object)")
+        cexit = find_func(ccls[0], "__exit__")
+        if "from_decorator = self._from_decorator" not in [_src(x) for x in ast.walk(cexit) if isinstance(x, ast.Assign)]:
+            raise Unsupported("Catcher.__exit__ does not read self._from_decorator")
+        logs = [n for n in ast.walk(cexit) if isinstance(n, ast.Call) and _src(n.func) == "logger._log"]
+        if len(logs) != 1 or len(logs[0].args) < 2 or _src(logs[0].args[1]) != "from_decorator":
+            raise Unsupported("Catcher.__exit__ does not pass from_decorator to logger._log")
+        ccall = find_func(ccls[0], "__call__")
+        mk = [n for n in ast.walk(ccall) if isinstance(n, ast.Assign) and _src(n.targets[0]) == "catcher"]
+        if len(mk) != 1 or not (isinstance(mk[0].value, ast.Call) and _src(mk[0].value.func) == "Catcher"
+                                and len(mk[0].value.args) == 1 and isinstance(mk[0].value.args[0], ast.Constant)
+                                and isinstance(mk[0].value.args[0].value, bool)):
+            raise Unsupported("Catcher.__call__: the wrapper does not use a FRESH `Catcher(<bool>)`: " +
+                              "; ".join(_src(m) for m in mk))
+        wrapper_flag = mk[0].value.args[0].value
+        withs = [n for n in ast.walk(ccall) if isinstance(n, ast.With)]
+        if not withs or any(_src(w.items[0].context_expr) != "catcher" for w in withs):
+            raise Unsupported("Catcher.__call__: wrappers do not run the function under `with catcher:`")
+        rets = [n for n in cfn.body if isinstance(n, ast.Return)]
+        if len(rets) != 1 or not (isinstance(rets[0].value, ast.Call) and _src(rets[0].value.func) == "Catcher"
+                                  and len(rets[0].value.args) == 1 and isinstance(rets[0].value.args[0], ast.Constant)
+                                  and isinstance(rets[0].value.args[0].value, bool)):
+            raise Unsupported("Logger.catch does not return `Catcher(<bool>)`")
+        context_flag = rets[0].value.args[0].value
+
+        body += "/-- `Logger.catch` returns `Catcher(%s)`; `Catcher.__call__` wraps the function in a fresh `Catcher(%s)`;\n" % (context_flag, wrapper_flag)
+        body += "    `_from_decorator` is assigned in `Catcher.__init__` only and is what `__exit__` hands to `_log` -/\n"
+        body += "def catchContextFlag : Bool := %s\ndef catchWrapperFlag : Bool := %s\n" % (
+            "true" if context_flag else "false", "true" if wrapper_flag else "false")
         body += "/-- default of `ExceptionFormatter(max_length=…)`; `_logger.py` never overrides it -/\n"
         body += "def maxLength : Nat := %d\n" % max_length
         body += "/-- `v[: max_length - k] + \"...\"` -/\ndef cut : Nat := %d\n" % cut_n
